@@ -1,0 +1,19 @@
+//go:build verif
+// +build verif
+
+package core
+
+import (
+	"com.tuntun.rangers/node/src/common"
+	"com.tuntun.rangers/node/src/middleware"
+	"com.tuntun.rangers/node/src/middleware/log"
+)
+
+// Verification hooks (build tag verif only): the gateway write handler is an admission entry
+// point of the transaction pool; these thin exports let a harness deliver a message to it
+// without the network layer.
+func VerifNewGameExecutor() *GameExecutor {
+	return &GameExecutor{logger: log.GetLoggerByIndex(log.GameExecutorLogConfig, common.GlobalConf.GetString("instance", "index", ""))}
+}
+
+func (executor *GameExecutor) VerifRunWrite(item *middleware.Item) { executor.runWrite(item) }
